@@ -13,7 +13,7 @@ numeric instance `ν` (so in particular for the doubles of the code) and every f
 Floating-point estimates and bounds (`hll_bounds_order`, C06) are executed and compared, not proved.
 -/
 import DSProofs.Lemmas.HllConvert
-import DSProofs.Lemmas.HllArrays
+import DSProofs.Lemmas.HllArraysRun
 import DSModel.Hll.GenParams
 namespace DS.Hll
 
@@ -212,6 +212,44 @@ theorem hll_empty_iff (p : Params) (hp : p.listFitsSet) (lgK : Nat) (tt : TType)
         have := mem_distinct.1 hc
         exact this.2 (hall c this.1)
 
+/-! ## L2: the concrete register arrays refine the per-slot-max abstraction -/
+
+/-- HLL_4 (two nibbles per byte holding `register - curMin`, AUX_TOKEN + aux map for exceptions, `internalHll4Update` with its
+four cases, `shiftToBiggerCurMin`): under the representation invariant `Inv4` (established by the constructor, kept by every
+update — so none of the code's `throw` branches is reachable) one coupon update is exactly the abstract
+`slot := max(slot, value)`, and (curMin, numAtCurMin) move exactly as in the L1 model. -/
+theorem hll4_refines (p : Params) (ht : p.auxToken = 15) (lgK : Nat) (hk : 1 ≤ lgK) :
+    Inv4 p (H4.new lgK) ∧
+    ∀ (h : H4) (c : Nat), Inv4 p h →
+      Inv4 p (h.update p c) ∧ (h.update p c).bad = false ∧ (h.update p c).lgK = h.lgK ∧
+      (h.update p c).regs p = maxUpdate p h.lgK (h.regs p) c ∧
+      ((h.update p c).curMin, (h.update p c).numAtCurMin) =
+        (if (h.regs p).getD (cSlot p h.lgK c) 0 < cValue p c then
+          bumpPair .h4 ((h.regs p).setIfInBounds (cSlot p h.lgK c) (cValue p c)) h.curMin h.numAtCurMin
+            ((h.regs p).getD (cSlot p h.lgK c) 0)
+         else (h.curMin, h.numAtCurMin)) :=
+  ⟨Inv4.new p lgK hk, fun h c hi =>
+    let r := h4_refines ht hi c
+    ⟨r.1, r.1.notbad, r.2.1, r.2.2.1, r.2.2.2⟩⟩
+
+/-- On every stream the concrete HLL_4 array and the L1 register model (target type HLL_4, started full-size or not) hold
+the same registers, curMin and numAtCurMin — hence, with `hll_regs_max`, the nibbles + aux map encode the per-slot maxima. -/
+theorem hll4_stream_agrees (p : Params) (ht : p.auxToken = 15) (lgK : Nat) (hk : 1 ≤ lgK) (sf : Bool) (cs : List Nat) :
+    let h := cs.foldl (H4.update p) (H4.new lgK)
+    let s : St ν := cs.foldl (hllUpdate p) (newHll lgK .h4 sf)
+    h.bad = false ∧ h.regs p = s.regs ∧ h.curMin = s.curMin ∧ h.numAtCurMin = s.numAtCurMin := by
+  intro h s
+  have r := Sim4.foldl (ν := ν) ht cs (Inv4.new p lgK hk) (HInv.newHll (ν := ν) p lgK .h4 sf) (Sim4.init p lgK sf)
+  exact ⟨r.1.notbad, r.2.regs.symm, r.2.curMin.symm, r.2.num.symm⟩
+
+/-- HLL_8: the byte array is the register array; an update is the abstract `slot := max(slot, value)` and `numAtCurMin`
+keeps counting the zero registers. -/
+theorem hll8_refines (p : Params) (h : H8) (c : Nat) (hsz : h.bytes.size = 2^h.lgK) :
+    (h.update p c).regs = maxUpdate p h.lgK h.regs c ∧ (h.update p c).lgK = h.lgK ∧
+    (h.update p c).bytes.size = 2^h.lgK ∧
+    (h.numAtCurMin = h.regs.count 0 → (h.update p c).numAtCurMin = (h.update p c).regs.count 0) :=
+  h8_refines p h c hsz
+
 /-! Non-vacuity: concrete streams (tunables of the code: 26-bit keys, LIST of 8, promotion to HLL below lg_k 8). -/
 def exP : Params := {}
 /-- lg_k = 4: ten distinct coupons (slots 3,3,1,... with values up to 17) plus duplicates and an EMPTY coupon -/
@@ -228,5 +266,8 @@ example : (run exP (newSketch exP 9 .h6 false : St Unit) exStream).mode = .set :
 example : isEmpty (run exP (newSketch exP 4 .h4 true : St Unit) [0, 0]) = true ∧
     isEmpty (run exP (newSketch exP 4 .h4 true : St Unit) exStream) = false := by decide +kernel
 example : ∀ c ∈ exStream, c ≠ 0 → 0 < cValue exP c := by decide
+/-- L2: the stream creates aux exceptions (value 17 at curMin 0) and a curMin shift on the concrete HLL_4 array -/
+def exH4 : H4 := ((List.range 16).map (fun i => cPair exP i (1 + i % 3)) ++ [cPair exP 7 17, cPair exP 2 20]).foldl (H4.update exP) (H4.new 4)
+example : exP.auxToken = 15 ∧ exH4.curMin = 1 ∧ exH4.bad = false ∧ exH4.ents.length = 2 ∧ exH4.reg exP 7 = 17 := by decide +kernel
 
 end DS.Hll
